@@ -45,7 +45,10 @@ LEAN_MODULES = ["JinnsProofs.C18", "JinnsProofs.C18Holds"]
 RULE = ("case = one static configuration x (fault route, fault position k in 0..8) variations; the fault position "
         "actually reached is recomputed by the model from the replayed batch stream (a marked point may recur in a "
         "later epoch); non-trivial = a fault occurred at some k >= 1 and the returned parameters differ from the initial "
-        "ones (so 'last finite' differs from 'initial')")
+        "ones (so 'last finite' differs from 'initial'); the faults are also combined with a validation module "
+        "(scripted, recording the parameters it is called with; real ValidationLoss with a still-decreasing loss; "
+        "periods 1..3, k on and off the schedule; no stop request before the fault): Holds.C19 is then evaluated too "
+        "(invocations with the post-update -- NaN -- parameters, criterion history, best parameters)")
 ASSUMPTIONS = [
     "IEEE NaN propagation through the polynomial loss, its AD and the optax update (validated by every run)",
     "the marked point is recognised by exact equality of grid points (dyadic grids)",
@@ -94,6 +97,56 @@ def _with_route(rng, base, route):
     return seg
 
 
+def script_outcomes(script):
+    """'i' improve (criterion - 1), 's' same, 'w' worse (+1); upper case = requests a stop"""
+    out, crit = [], 8
+    for ch in script:
+        low = ch.lower()
+        crit += {"i": -1, "s": 0, "w": 1}[low]
+        out.append([str(crit), low == "i", ch.isupper()])
+    return out
+
+
+def fault_val_groups(rng, tier):
+    """NaN faults combined with a validation module (shared by C18 and C19): every fault route, fault
+    positions k = 0..8 on and off the validation schedule (periods 1..3), with (a) a scripted module that
+    records the parameters it is called with and never requests a stop, (b) the real ValidationLoss on a
+    validation loss that keeps decreasing (so that the failing call would flag an improvement if it were
+    given finite parameters), patience 3.  Each group = one static configuration x the positions k."""
+    groups = []
+    routes = ["loss", "grad-nn", "grad-eq", "opt"]
+    nbase = 1 if tier == "quick" else 3
+    for bi in range(nbase):
+        base = _base(rng, 10, opt_kind=["sgd", "momentum", "schedule"][bi % 3])
+        base["track"] = sp.full_track(base["shape"])
+        nflat = sum(sp.leaf_sizes(base["params"]))
+        for vi, vk in enumerate(("scripted", "vloss")):
+            for c in (1, 2, 3):
+                for ri, route in enumerate(routes):
+                    if tier == "quick" and (ri + c + vi) % 2:      # quick: two routes per (module, period)
+                        continue
+                    b2 = copy.deepcopy(base)
+                    if vk == "vloss":
+                        # every parameter decreases at every step, so does the validation loss sum(p)
+                        b2["loss"] = {"terms": [["dyn_loss", [["1", [i], 0] for i in range(nflat)]],
+                                                ["initial_condition", [["1", [0], 0]]]], "mark": None, "grad_fault": []}
+                    seg = _with_route(rng, b2, route)
+                    if vk == "scripted":
+                        L = seg["n"] // c + 2
+                        pat = rng.choice(["i" * L, "".join(rng.choice("isw") for _ in range(L))])
+                        seg["val"] = {"kind": "scripted", "call_every": c, "script": script_outcomes(pat)}
+                    else:
+                        vb = rng.choice([1, 2])
+                        seg["val"] = {"kind": "vloss", "call_every": c, "patience": 3, "early": bool((bi + c) % 2),
+                                      "vkind": "decreasing",
+                                      "loss": {"terms": [["dyn_loss", [["1", [i], 0] for i in range(nflat)]]],
+                                               "mark": None, "grad_fault": []},
+                                      "gens": {"data": {"nt": 2 * vb + 1, "b": vb, "seed": rng.randrange(1 << 30),
+                                                        "half": True}, "param": None, "obs": None}}
+                    groups.append([{**seg, "k": k} for k in range(KMAX + 1)])
+    return groups
+
+
 def gen_cases(rng, tier):
     cases = []
     nbases = 8 if tier == "quick" else 30
@@ -128,6 +181,8 @@ def gen_cases(rng, tier):
         if bi % 3 == 0:   # the same through a plain (not jit-wrapped) call of solve
             seg = _with_route(rng, base, rng.choice(["loss", "grad-nn", "opt"]))
             cases.append({"segs": [{**seg, "k": k, "jit": False} for k in (0, 3)]})
+    for g in fault_val_groups(rng, tier):
+        cases.append({"segs": g})
     # the (slow, eager) Python-loop cases go first so that they overlap with the bulk of the work
     def _slow(c):
         return bool((c.get("seg") or c["segs"][0]).get("sharding"))
@@ -175,7 +230,11 @@ def run_impl(case):
         batches, fps = sp.replay(data, pdata, odata, int(seg["n"]))
         rs = _resolved(seg, batches)
         obs, _ = sp.run_segment(rs)
-        runs.append({"A": obs, "batches": batches, "gens": fps, "mark": rs["loss"].get("mark")})
+        rec = {"A": obs, "batches": batches, "gens": fps, "mark": rs["loss"].get("mark")}
+        if seg.get("val") and seg["val"]["kind"] == "vloss":
+            vd, vp, vo = sp.build_generators(seg["val"]["gens"])
+            rec["vbatches"], _ = sp.replay(vd, vp, vo, int(seg["n"]))
+        runs.append(rec)
     return {"runs": runs}
 
 
@@ -183,7 +242,8 @@ def lean_request(case, obs):
     reqs = []
     for seg, rec in zip(case["segs"], obs["runs"]):
         rs = _resolved(seg, rec["batches"])
-        reqs.append({"op": "c18", "prog": sp.lean_prog(rs, rec["batches"], rec["gens"]), "obs": rec["A"]})
+        reqs.append({"op": "c18", "prog": sp.lean_prog(rs, rec["batches"], rec["gens"], vbatches=rec.get("vbatches")),
+                     "obs": rec["A"]})
     return reqs
 
 
@@ -212,6 +272,12 @@ def tags(case, obs):
     out = [f"route={seg['route']}", f"opt={seg['opt']['kind']}",
            "python_loop(obs_batch_sharding)" if seg.get("sharding") else
            ("jit_wrapped" if seg.get("jit", True) else "plain_call")]
+    if seg.get("val"):
+        c = seg["val"]["call_every"]
+        out.append(f"validation={seg['val']['kind']}/period={c}")
+        for k in obs.get("_fault_at", []):
+            if k is not None:
+                out.append("fault_on_validation_schedule" if k % c == 0 else "fault_off_validation_schedule")
     for k, ini in zip(obs.get("_fault_at", []), obs.get("_initial_nan", [])):
         out.append("initial_nan" if ini else ("no_fault" if k is None else f"fault_at={k}"))
     return out
